@@ -118,6 +118,12 @@ ROLE_SET = {
     "roleq/Ack.1.0.dsdl": "@sealed\n",
     "roleq/Zzack.1.0.dsdl": "@extent 0\n",
     "roleq/AckSvc.1.0.dsdl": "@sealed\n---\nuint8[<=3] string\nroleq.Ack.1.0 ack\n@sealed\n",
+    # documentation shapes: comments that end in an indented list line (no blank line after it), and - in other types, first and
+    # last in name order - documentation lines long enough to be wrapped; headers and fields alike
+    "roleq/Aaadocq.1.0.dsdl": "# This line of documentation is deliberately much longer than the width at which the comment helpers wrap text, so that it is re-flowed onto several lines when the header is written out.\n# second paragraph\nuint8 a  # This line of documentation is deliberately much longer than the width at which the comment helpers wrap text, so that it is re-flowed onto several lines when the header is written out.\n@sealed\n",
+    "roleq/Listdocq.1.0.dsdl": "# Values:\n#   - first item of an indented list\n#   - last item, nothing follows it\nuint8 a  # field list:\n#     * one\n#     * two\nuint8 b\n@sealed\n",
+    "roleq/Zzzdocq.1.0.dsdl": "# This line of documentation is deliberately much longer than the width at which the comment helpers wrap text, so that it is re-flowed onto several lines when the header is written out.\nuint8 a  # This line of documentation is deliberately much longer than the width at which the comment helpers wrap text, so that it is re-flowed onto several lines when the header is written out.\nroleq.Listdocq.1.0 l  # - dash\n#      deeper\n@sealed\n",
+    "roleq/torque/Docq.1.0.dsdl": "#    indented from the start\n#        and deeper\nuint8 a  # This line of documentation is deliberately much longer than the width at which the comment helpers wrap text, so that it is re-flowed onto several lines when the header is written out.\n@sealed\n",
 }
 
 
@@ -222,6 +228,18 @@ def one_set(ctx, idx, probes):
                     ts = copy.deepcopy([pristine_by_key[genrun.type_key(t)] for t in ts])
                     ctx.count("runs_on_pristine_models")
                 shared = kw.pop("shared_pps", None)
+                if kw.pop("crlf_first", False):
+                    # the output directory already holds the same files with CRLF line endings (an earlier run of this interpreter
+                    # whose file post-processor converted them, as unix2dos or a checkout with autocrlf would)
+                    import nunavut._postprocessors as _pp
+
+                    class ToCRLF(_pp.FilePostProcessor):
+                        def __call__(self, generated):
+                            data = generated.read_bytes().replace(b"\r\n", b"\n").replace(b"\n", b"\r\n")
+                            os.chmod(str(generated), 0o644)
+                            generated.write_bytes(data)
+                            return generated
+                    genrun.gen_inprocess(ts, root_dir, out, lang, order_seed=order_seed, post_processors=(pps() or []) + [ToCRLF()], templates_dir=tdir, **kwx)
                 files, ns = genrun.gen_inprocess(ts, root_dir, out, lang, order_seed=order_seed, post_processors=shared if shared is not None else pps(),
                                                  templates_dir=kw.pop("templates_dir", tdir), **dict(kwx, **kw))
                 stem = ns.get_language_context().get_target_language().namespace_output_stem
@@ -260,6 +278,10 @@ def one_set(ctx, idx, probes):
                         variants.append(("after_failed", run(types)))
                     except Exception as e:
                         ctx.refute(None, "variant after_failed failed: %r" % e, dict(set=idx, root=root, lang=lang))
+                try:
+                    variants.append(("same_outdir_crlf", run(types, crlf_first=True)))
+                except Exception as e:
+                    ctx.refute(None, "variant same_outdir_crlf failed: %r" % e, dict(set=idx, root=root, lang=lang))
                 # and every single earlier generate_all() on the same generator objects that differs in one per-call option
                 for pre in ([dict(omit_serialization_support=True)], [dict(embed_auditing_info=True)], [dict(is_dryrun=True, omit_serialization_support=True)],
                             [dict(is_dryrun=True, embed_auditing_info=True)], [dict(allow_overwrite=False)],
@@ -270,7 +292,7 @@ def one_set(ctx, idx, probes):
                         ctx.refute(None, "variant same_generator failed: %r" % e, dict(set=idx, root=root, lang=lang, pre_calls=pre))
             for v in range(nvar):
                 kind = R.choice(["perm", "subset", "closed", "again", "after_other", "after_config", "config_vs_fresh", "same_generator", "after_failed", "shared_pp_list",
-                                 "after_other_whitespace", "after_template_set_change"])
+                                 "after_other_whitespace", "after_template_set_change", "same_outdir_crlf"])
                 if kind == "config_vs_fresh" and (lang == "html" or tdir or cfgx):
                     kind = "perm"
                 if kind == "after_template_set_change" and not tdir:
@@ -317,6 +339,8 @@ def one_set(ctx, idx, probes):
                             shutil.copy(os.path.join(tdir, fn), os.path.join(tmut, fn))
                         os.unlink(os.path.join(tmut, "Any.j2"))
                         variants.append((kind, run(types, templates_dir=tmut)))
+                    elif kind == "same_outdir_crlf":
+                        variants.append((kind, run(types, crlf_first=True)))
                     elif kind == "perm":
                         variants.append((kind, run(types, order_seed=R.random())))
                     elif kind == "subset":
